@@ -77,6 +77,20 @@ Theorem C15_tolerance_above_one_rejected : forall t d0 d1 r0 r1, DEC < t ->
   assert_slippage_cp (Some t) d0 d1 r0 r1 = Err E_OTHER.
 Proof. exact tolerance_gt_one_rejected. Qed.
 
+(* stableswap pools (terraswap_pair StableSwap arm and stableswap_3pool): total reserves per LP, scaled by (1-t), must not
+   exceed total deposits per minted LP *)
+Theorem C15_stable_tolerance_sound : forall t dt pt amount supply,
+  assert_slippage_stable (Some t) dt pt amount supply = Ok tt ->
+  t <= DEC /\ supply <> 0 /\ amount <> 0 /\ stable_tol_bound t dt pt amount supply.
+Proof. exact stable_tolerance_sound. Qed.
+Theorem C15_stable_tolerance_complete : forall t dt pt amount supply,
+  0 <= t <= DEC -> 0 <= dt < 4 * P128 -> 0 <= pt < 4 * P128 -> 0 < amount < P128 -> 0 < supply < P128 ->
+  stable_tol_bound t dt pt amount supply -> assert_slippage_stable (Some t) dt pt amount supply = Ok tt.
+Proof. exact stable_tolerance_complete. Qed.
+Theorem C15_stable_tolerance_above_one_rejected : forall t dt pt amount supply, DEC < t ->
+  assert_slippage_stable (Some t) dt pt amount supply = Err E_OTHER.
+Proof. exact stable_tolerance_gt_one_rejected. Qed.
+
 (* on the pool machine: every successful swap / deposit of every reachable state obeyed its limit *)
 Theorem C15_swap_respects_max_spread : forall s who dir x m to s' p, reachable s ->
   step the_consts s (Swap who dir x None m to) = Ok (s', p) ->
@@ -124,7 +138,9 @@ Example C15_nonvacuous :
   assert_max_spread (DEC/100) (DEC/2) (Some (2*DEC)) (Some (DEC/10)) 1000 450 0 = Ok tt /\
   assert_max_spread (DEC/100) (DEC/2) (Some (2*DEC)) (Some (DEC/10)) 1000 449 0 = Err E_SLIPPAGE /\
   assert_slippage_cp (Some (DEC/100)) 1000 1010 100000 100000 = Ok tt /\
-  assert_slippage_cp (Some (DEC/100)) 1000 1011 100000 100000 = Err E_SLIPPAGE.
+  assert_slippage_cp (Some (DEC/100)) 1000 1011 100000 100000 = Err E_SLIPPAGE /\
+  assert_slippage_stable (Some (DEC/100)) 2000 200000 1010 100000 = Ok tt /\
+  assert_slippage_stable (Some (DEC/100)) 2000 200000 1011 100000 = Err E_SLIPPAGE.
 Proof. vm_compute. repeat split; reflexivity. Qed.
 
 Print Assumptions C15_max_spread_sound.
@@ -139,6 +155,9 @@ Print Assumptions C15_belief_price_complete.
 Print Assumptions C15_tolerance_sound.
 Print Assumptions C15_tolerance_complete.
 Print Assumptions C15_tolerance_above_one_rejected.
+Print Assumptions C15_stable_tolerance_sound.
+Print Assumptions C15_stable_tolerance_complete.
+Print Assumptions C15_stable_tolerance_above_one_rejected.
 Print Assumptions C15_swap_respects_max_spread.
 Print Assumptions C15_swap_respects_belief_price.
 Print Assumptions C15_provide_respects_tolerance.
